@@ -435,7 +435,8 @@ pub fn multi_bottom(_args: &[String]) -> String {
     std::panic::set_hook(Box::new(|_| {}));
     use indicatif::MultiProgressAlignment;
     let mut tried = 0u64;
-    // op: 0 = mp.println, 1..=3 = remove bar i, 4..=6 = bar i println, 7..=9 = bar i finish_and_clear + drop
+    // op: 0 = mp.println, 1..=3 = remove bar i, 4..=6 = bar i println, 7..=9 = bar i finish_and_clear + drop,
+    // 10 = mp.suspend with a closure that writes a line, 11 = mp.clear
     let run = |ops: &[usize], tried: &mut u64| -> Option<String> {
         let term = InMemoryTerm::new(H, W as u16);
         let mp = MultiProgress::with_draw_target(ProgressDrawTarget::term_like(Box::new(term.clone())));
@@ -454,7 +455,9 @@ pub fn multi_bottom(_args: &[String]) -> String {
                 0 => { let t = format!("log-{}", k); let _ = mp.println(&t); logs.push(t.clone()); hist.push(format!("mp.println({:?})", t)); }
                 1..=3 => match bars[op - 1].take() { Some(pb) => { mp.remove(&pb); hist.push(format!("mp.remove(bar{})", op - 1)); } None => return None },
                 4..=6 => match &bars[op - 4] { Some(pb) => { let t = format!("blog-{}", k); pb.println(&t); logs.push(t.clone()); hist.push(format!("bar{}.println({:?})", op - 4, t)); } None => return None },
-                _ => match bars[op - 7].take() { Some(pb) => { pb.finish_and_clear(); drop(pb); hist.push(format!("bar{}.finish_and_clear(); drop", op - 7)); } None => return None },
+                7..=9 => match bars[op - 7].take() { Some(pb) => { pb.finish_and_clear(); drop(pb); hist.push(format!("bar{}.finish_and_clear(); drop", op - 7)); } None => return None },
+                10 => { let t = format!("out-{}", k); let tt = term.clone(); mp.suspend(|| { let _ = tt.write_line(&t); }); logs.push(t.clone()); hist.push(format!("mp.suspend(|| write_line({:?}))", t)); }
+                _ => { let _ = mp.clear(); hist.push("mp.clear()".into()); }
             }
             for pb in bars.iter().flatten() { pb.tick(); }
             hist.push("tick every live bar".into());
@@ -481,7 +484,7 @@ pub fn multi_bottom(_args: &[String]) -> String {
         }
         None
     };
-    for a in 0..10 { for b in 0..10 { for c in 0..10 { for d in 0..10 {
+    for a in 0..12 { for b in 0..12 { for c in 0..12 { for d in 0..12 {
         if let Some(r) = run(&[a, b, c, d], &mut tried) { return r; }
     }}}}
     format!("{{\"found\": false, \"tried\": {}}}", tried)
